@@ -1069,3 +1069,170 @@ func ruleLim4(c *Ctx) {
 		c.Unknown("row bounds", "-", "cannot-analyse: no RecordSet cut with a computed bound in View.Limit / View.Offset")
 	}
 }
+
+// R-FIX-1 ---------------------------------------------------------------------
+
+func init() {
+	Register(&Rule{ID: "R-FIX-1", Props: []string{"C07", "C03"}, Floor: 5,
+		Doc: "View.Fix ends the pipeline with a clean view: every unexported field of View that some other function stores into (the transient state of the SELECT pipeline: select fields and labels, grouping flag, comparison keys, sort keys and directions, the OFFSET count that LIMIT … PERCENT adds back) is stored with its zero value on every success path of Fix, directly or in a helper called on the same view — the view is handed to the enclosing query (sub-query in FROM, operand of a set operation), so a value left behind is read by that query's own stages",
+		Run: ruleFix1})
+}
+
+func isZeroConst(v ssa.Value) bool {
+	k, ok := v.(*ssa.Const)
+	if !ok {
+		return false
+	}
+	if k.Value == nil {
+		return true
+	}
+	switch k.Value.Kind() {
+	case constant.Int:
+		i, _ := constant.Int64Val(k.Value)
+		return i == 0
+	case constant.Bool:
+		return !constant.BoolVal(k.Value)
+	case constant.String:
+		return constant.StringVal(k.Value) == ""
+	case constant.Float:
+		f, _ := constant.Float64Val(k.Value)
+		return f == 0
+	}
+	return false
+}
+
+// zeroStoresOnAllPaths: every path of fn from the entry to a success return stores the zero value into field
+// `field` of the object `obj` (a parameter of fn), directly or through a callee that receives obj and does so.
+func zeroStoresOnAllPaths(c *Ctx, fn *ssa.Function, obj ssa.Value, field string, depth int) (bool, ssa.Instruction) {
+	if fn == nil || len(fn.Blocks) == 0 || depth > 3 {
+		return false, nil
+	}
+	isTarget := func(in ssa.Instruction) bool {
+		switch x := in.(type) {
+		case *ssa.Store:
+			if fa, ok := x.Addr.(*ssa.FieldAddr); ok && isSameObject(fa.X, obj) && core.FieldName(fa) == field && isZeroConst(x.Val) {
+				return true
+			}
+		case ssa.CallInstruction:
+			g := x.Common().StaticCallee()
+			if g == nil || g.Blocks == nil {
+				return false
+			}
+			for i, a := range x.Common().Args {
+				if isSameObject(a, obj) && i < len(g.Params) {
+					if ok, _ := zeroStoresOnAllPaths(c, g, g.Params[i], field, depth+1); ok {
+						return true
+					}
+				}
+			}
+		}
+		return false
+	}
+	var bad ssa.Instruction
+	seen := map[*ssa.BasicBlock]bool{}
+	var walk func(b *ssa.BasicBlock)
+	walk = func(b *ssa.BasicBlock) {
+		if bad != nil || seen[b] {
+			return
+		}
+		seen[b] = true
+		for _, in := range b.Instrs {
+			if isTarget(in) {
+				return
+			}
+			if r, ok := in.(*ssa.Return); ok {
+				if ei := core.ErrorResultIndex(fn); ei >= 0 && ei < len(r.Results) && core.ClassifyNil(r.Results[ei], r) == core.NonNil {
+					return
+				}
+				bad = r
+				return
+			}
+		}
+		for _, s := range b.Succs {
+			walk(s)
+		}
+	}
+	walk(fn.Blocks[0])
+	return bad == nil, bad
+}
+
+func ruleFix1(c *Ctx) {
+	fix := c.Fn("lib/query.(*View).Fix")
+	viewT := c.P.Type("lib/query", "View")
+	if fix == nil || viewT == nil {
+		return
+	}
+	st, _ := viewT.Underlying().(*types.Struct)
+	if st == nil || len(fix.Params) == 0 {
+		return
+	}
+	// fields that functions other than Fix (and its private helpers) store into
+	helpers := privateHelpersOf(c.P, fix, 2)
+	storedElsewhere := map[string]string{}
+	for _, fn := range c.P.FuncsIn(false, "lib/query") {
+		if fn == fix || helpers[fn] || (fn.Parent() != nil && (fn.Parent() == fix || helpers[fn.Parent()])) {
+			continue
+		}
+		for _, b := range fn.Blocks {
+			for _, in := range b.Instrs {
+				s, ok := in.(*ssa.Store)
+				if !ok {
+					continue
+				}
+				fa, ok := s.Addr.(*ssa.FieldAddr)
+				if !ok || core.NamedOf(fa.X.Type()) != "lib/query.View" {
+					continue
+				}
+				if isZeroConst(s.Val) {
+					continue
+				}
+				if _, seen := storedElsewhere[core.FieldName(fa)]; !seen {
+					storedElsewhere[core.FieldName(fa)] = c.Pos(s)
+				}
+			}
+		}
+	}
+	n := 0
+	for i := 0; i < st.NumFields(); i++ {
+		f := st.Field(i)
+		if f.Exported() {
+			continue
+		}
+		where, ok := storedElsewhere[f.Name()]
+		if !ok {
+			continue
+		}
+		n++
+		key := c.KeyAt(fix, "resets "+f.Name())
+		ok2, bad := zeroStoresOnAllPaths(c, fix, fix.Params[0], f.Name(), 0)
+		if ok2 {
+			c.Ok(key, c.FnPos(fix), "zero value stored on every success path (the field is set e.g. at "+where+")")
+		} else {
+			pos := c.FnPos(fix)
+			if bad != nil {
+				pos = c.Pos(bad)
+			}
+			c.Bad(key, pos, fmt.Sprintf("Fix can return successfully without resetting View.%s (set e.g. at %s): the enclosing query receives this view object and its own stages read the stale value (e.g. LIMIT … PERCENT adds a sub-query's OFFSET to its row count)", f.Name(), where))
+		}
+	}
+	if n == 0 {
+		c.Unknown(c.KeyAt(fix, "transient fields"), c.FnPos(fix), "cannot-analyse: no unexported field of View is stored outside Fix")
+	}
+}
+
+// isSameObject: v is obj, or a load of a cell that only ever holds obj (a parameter captured by a closure is spilled).
+func isSameObject(v, obj ssa.Value) bool {
+	if v == obj {
+		return true
+	}
+	os := core.Origins(v, false)
+	if len(os) == 0 {
+		return false
+	}
+	for _, o := range os {
+		if o != obj {
+			return false
+		}
+	}
+	return true
+}
